@@ -93,6 +93,8 @@ func toolMain(args []string) error {
 		os.Exit(1)
 	case "empty":
 		os.Exit(2)
+	case "empty0": // exit status 0 but nothing printed at all (shellcheck -f json always prints at least [])
+		os.Exit(0)
 	case "crash":
 		fmt.Fprintln(os.Stderr, "stand-in tool crashed")
 		os.Exit(3)
